@@ -615,6 +615,13 @@ fn mixed(mut spec: CheckSpec, variants: Vec<(u32, Variant)>) -> CheckSpec {
                 return match v {
                     Variant::Hist(p) => hist_case(rs, tier, *p),
                     Variant::Conc(p) => conc_case(rs, tier, *p),
+                    Variant::IoFault => {
+                        // C09 under transient faults ("as long as the filesystem makes progress"):
+                        // hangs and background panics after a fault that is over keep their C09 tag
+                        let mut c = iofault_case(rs, tier);
+                        c.params.insert("max_points".to_string(), if tier == Tier::Quick { 10 } else { 200 });
+                        c
+                    }
                     Variant::Crash => {
                         let mut c = crash_case(rs, tier, false);
                         // inside a mixed check a crash run is one of many: keep it short
@@ -647,6 +654,8 @@ enum Variant {
     Conc(ConcProfile),
     /// recorded base run + recovery simulation per crash point (C10/C11 on recovered images)
     Crash,
+    /// fault-free base run + one faulted re-execution per (filesystem call, mode)
+    IoFault,
 }
 
 pub fn spec_for(prop: &str) -> Option<CheckSpec> {
@@ -664,8 +673,8 @@ pub fn spec_for(prop: &str) -> Option<CheckSpec> {
         "C10" => mixed(hist_spec("C10", Profile::C10, "80% hist / 20% crash-image runs (one evaluation per crash point: the shape oracle runs on every recovered image right after open). hist clause: one evaluation = one simulated history; after the first open, every reopen, every CheckAll and at the end the database is quiesced and the structured shape (verif_shape) is checked: per level >= 1 files sorted and pairwise disjoint in internal-key order, smallest <= largest, no file number twice, and every file's bounds equal its first/last stored entry (table read back through verif_api::table_entries); cross-checked against NumFilesAtLevel and SSTables descriptors.", &["l0_ge4_over_l1_ge2", "multi_file_level_ge2"], (20_000, 1_500_000)), vec![(80, Variant::Hist(Profile::C10)), (20, Variant::Crash)]),
         "C11" => mixed(hist_spec("C11", Profile::C11, "50% hist / 30% conc / 20% crash-image runs (one evaluation per crash point: the directory of every recovered image must equal the needed set right after open - orphan tables, half-written temp files and superseded manifests are reclaimed - and recovery must never fail with missing files). conc clause: reader tasks hold iterators (pinned table set known from verif_shape before/after creation; unknown pins counted as pin_unknown) while writers flush and compact with table-cache capacity 2; a remove of a pinned table in the SimFs log during the iterator's lifetime, or any read failing with NotFound, is a violation. hist clause: one evaluation = one simulated history; the directory listing of SimFs is compared with {CURRENT, LOCK, current manifest, active WAL, tables of the current version} right after every successful open and at quiescent points where no iterator is alive and one reclamation opportunity (flush/compaction end) has passed since the last iterator release; files pending between a release and the next opportunity are counted as lazy_pending_files, not violations; any read failing with NotFound is a violation.", &["l0_ge4_over_l1_ge2"], (20_000, 1_500_000)), vec![(50, Variant::Hist(Profile::C11)), (30, Variant::Conc(ConcProfile::C11)), (20, Variant::Crash)]),
         "C09" => mixed(
-            hist_spec("C09", Profile::C09, "one evaluation = one simulated run, fault-free filesystem: 25% single-client histories incl. every descriptor kind, 35% concurrent runs with writers, readers, compact_range, every descriptor kind (incl. Stats), snapshot take/release, flush, and close while background work may still be in flight, 40% the concurrent workloads of C05/C03/C11/C06. Violations: shuttle reports a deadlock (all live tasks blocked) or a re-entrant lock acquisition; any task of an open database panics (the orphan worker of a failed open is exempt); a background error is recorded; a run exceeds 2M scheduler steps and still does under a fair round-robin schedule (otherwise counted as unfair_schedule_timeouts).", &["freeze_fired"], (30_000, 2_000_000)),
-            vec![(25, Variant::Hist(Profile::C09)), (35, Variant::Conc(ConcProfile::C09)), (5, Variant::Conc(ConcProfile::C05Big)), (10, Variant::Conc(ConcProfile::C05)), (10, Variant::Conc(ConcProfile::C03)), (10, Variant::Conc(ConcProfile::C11)), (10, Variant::Conc(ConcProfile::C06))],
+            hist_spec("C09", Profile::C09, "one evaluation = one simulated run: 5% fault-enumeration runs of the C08 engine (hangs and background panics after a transient or partial-write fault - the filesystem keeps making progress - count; those under a sticky fault do not), the rest on a fault-free filesystem: 25% single-client histories incl. every descriptor kind, 30% concurrent runs with writers, readers, compact_range, every descriptor kind (incl. Stats), snapshot take/release, flush, and close while background work may still be in flight, 40% the concurrent workloads of C05/C03/C11/C06. Violations: shuttle reports a deadlock (all live tasks blocked) or a re-entrant lock acquisition; any task of an open database panics (the orphan worker of a failed open is exempt); a background error is recorded; a run exceeds 2M scheduler steps and still does under a fair round-robin schedule (otherwise counted as unfair_schedule_timeouts).", &["freeze_fired"], (30_000, 2_000_000)),
+            vec![(25, Variant::Hist(Profile::C09)), (30, Variant::Conc(ConcProfile::C09)), (5, Variant::IoFault), (5, Variant::Conc(ConcProfile::C05Big)), (10, Variant::Conc(ConcProfile::C05)), (10, Variant::Conc(ConcProfile::C03)), (10, Variant::Conc(ConcProfile::C11)), (10, Variant::Conc(ConcProfile::C06))],
         ),
         "C05" => mixed(conc_spec("C05", ConcProfile::C05, "85% standard / 15% big-write runs (3-5 clients x 2-6 operations with 70-300 KB values so that queued writers hit the group-commit size limits). Standard: one evaluation = one simulated concurrent run: 2-5 client tasks x 5-60 operations over 2-8 keys (unique value tags) with 512 B-4 KiB memtables so that rotation, flush and compaction run continuously; schedulers Random / Sticky / PCT(depth 1-4) / Freeze (parks a task at an unlocked_fair exit, filesystem call or hook until the others are blocked or a step budget expires). The invoke/return history (global event sequence numbers) is checked per key against a register model by a memoised WGL search, with the final quiesced state as a last read; phantom reads, reads from the future and write errors are violations. Histories above the checker budget are counted as unchecked, never as violations.", &["freeze_fired", "group_commit_merged_writers"], (30_000, 2_000_000)), vec![(85, Variant::Conc(ConcProfile::C05)), (15, Variant::Conc(ConcProfile::C05Big))]),
         "C06" => conc_spec("C06", ConcProfile::C06, "one evaluation = one simulated concurrent run in which 1-3 writer tasks each own a row group of 2-8 keys and repeatedly apply one batch writing the same fresh tag to every key of the group (sometimes deleting all, sometimes padded beyond the memtable budget) while 1-2 reader tasks take snapshots / iterators and read whole groups; H4 puts a scheduling point after every single memtable insert, SimFs before and after the WAL append. Oracle: in every snapshot-consistent read all keys of a group carry the same tag.", &["freeze_fired"], (30_000, 2_000_000)),
